@@ -14,6 +14,7 @@ pub use mc_core::ex::{self, set_lattice, Ex};
 pub use mc_core::field::{Field, Sh};
 pub use mc_core::model;
 pub use mc_core::tier::*;
+pub mod tokens;
 
 use std::ops::*;
 
